@@ -14,6 +14,7 @@ import IocProofs.Lemmas.SemScanFields
 import IocProofs.Lemmas.ScanCode
 import IocProofs.Lemmas.TagScanLink
 import IocProofs.Lemmas.SemSmall
+import IocProofs.Lemmas.SemProcessors
 namespace Ioc.C11
 open Ioc Ioc.Scan
 
@@ -389,5 +390,15 @@ theorem C11_code_holders (m : Nat) (b hb hm he hh : Go.Val) :
     Go.run Sem.hoPrims Progs.holder_NewEmbedHolder [b, .tuple [.str "Holder", hb, hm, he, hh]] () =
       some (.tuple [.str "Holder", b, hm, .bool true, .tuple [.str "Holder", hb, hm, he, hh]], ()) :=
   ⟨Sem.newHolder_sem m, Sem.newEmbedHolder_sem b hb hm he hh⟩
+
+/-- loggerAwarePostProcessors.PostProcessProperties, regenerated: exactly the properties that carry the logger tag AND whose
+    type implements syslog.Logger are written (a logger whose prefix is the tag text, else the holder's / the definition's
+    rendering), in order; every other property is left alone; the list is returned unchanged, never an error -/
+theorem C11_code_loggerProperties (ps : List Sem.LProp) (n : Nat) (w : List (Nat × String)) :
+    Go.run (Sem.lgPrims ps) Progs.pp_logger_Properties [.list ((List.range' 0 n).map (fun i => Go.Val.ref i 20)), .str "c", .str "n"] w =
+      some (.tuple [.list ((List.range' 0 n).map (fun i => Go.Val.ref i 20)), .nil],
+        w ++ ((List.range' 0 n).filter (fun i => (Sem.lpropAt ps i).isLoggerTag && (Sem.lpropAt ps i).implements)).map
+               (fun i => (i, Sem.loggerPref (Sem.lpropAt ps i)))) :=
+  Sem.loggerProperties_sem ps n w
 
 end Ioc.C11
